@@ -26,6 +26,12 @@ enum Op {
     Snap,
     SnapDrop(usize),
     SnapCheck(usize),
+    /// NEW: the store becomes empty
+    New,
+    /// a file of numbered lines put on the SimDisk and loaded: the store becomes exactly the file
+    Load(Vec<(u32, String)>),
+    /// a LIST / DELETE statement stored in a program line and executed by RUN (interrupt after the j-th listed line, CONT)
+    ProgList(Range, Option<usize>),
 }
 
 #[derive(Clone, Debug)]
@@ -235,6 +241,8 @@ impl Case for C15Case {
                 }
                 Op::List(r, intr_after) => {
                     let mut io = LineIo::budget(5000);
+                    // a listing of at most 20 lines needs a few dozen execute() calls
+                    io.max_slices = 400;
                     if let Some(j) = intr_after {
                         io.intrs.push(When::AfterList(*j));
                     }
@@ -318,6 +326,77 @@ impl Case for C15Case {
                 }
                 Op::SnapCheck(i) => {
                     w.snap_check(*i);
+                }
+                Op::New => {
+                    if w.snaps_alive() > 0 {
+                        w.stats.bump("fault.live_snapshot_during_edit");
+                    }
+                    w.line("NEW", &LineIo::budget(200));
+                    model.clear();
+                    w.stats.bump("c15.new");
+                }
+                Op::Load(lines) => {
+                    if w.snaps_alive() > 0 {
+                        w.stats.bump("fault.live_snapshot_during_edit");
+                    }
+                    let file: Vec<String> = lines.iter().map(|(n, t)| format!("{} {}", n, t)).collect();
+                    w.disk.insert("F".into(), file);
+                    w.line("LOAD \"F\"", &LineIo::budget(200));
+                    model.clear();
+                    for (n, t) in lines {
+                        model.insert(*n, t.clone());
+                    }
+                    w.stats.bump("c15.load");
+                }
+                Op::ProgList(r, intr_after) => {
+                    // the range statement as line 3 of the stored program; lines 1-2 make sure it is reached
+                    if let Some((a, b)) = r.bounds() {
+                        let text = format!("LIST{}", r.text());
+                        w.line(&format!("3 {}", text), &LineIo::budget(200));
+                        model.insert(3, text);
+                        let expect: Vec<String> = model.range(a..=b).map(|(k, t)| format!("{} {}", k, t)).collect();
+                        let mut io = LineIo::budget(5000);
+                        if let Some(j) = intr_after {
+                            io.intrs.push(When::AfterList(*j));
+                        }
+                        let o = w.line("RUN 3", &io);
+                        let mut listed: Vec<String> = w.events[o.ev_start..o.ev_end]
+                            .iter()
+                            .filter_map(|e| if let Ev::List(s, _) = e { Some(s.clone()) } else { None })
+                            .collect();
+                        if o.intr_fired > 0 {
+                            w.stats.bump("fault.program_list_interrupted");
+                            // an inspection LIST while stopped, then CONT: the program's LIST goes on where it was
+                            w.line("LIST 3", &LineIo::budget(5000));
+                            let o2 = w.line("CONT", &LineIo::budget(5000));
+                            for e in &w.events[o2.ev_start..o2.ev_end] {
+                                if let Ev::List(s, _) = e {
+                                    listed.push(s.clone());
+                                }
+                            }
+                        }
+                        let blocked = w.events[o.ev_start..o.ev_end]
+                            .iter()
+                            .any(|e| matches!(e, Ev::Errors(es) if es.iter().any(|x| x.has_column())));
+                        if blocked {
+                            // the stored lines do not link (GOTO 10 without a line 10): nothing runs
+                            w.stats.bump("c15.program_list_blocked_by_compile_error");
+                            listed = expect.clone();
+                        } else {
+                            w.stats.bump("c15.program_list");
+                        }
+                        // what follows line 3 in the program may list / print more: only the prefix is LIST's
+                        let n = expect.len().min(listed.len());
+                        if listed.len() < expect.len() || listed[..n] != expect[..] {
+                            fail = Some(Violation {
+                                key: "C15:program-list-range".into(),
+                                detail: format!("op {}: `3 LIST{}` + RUN 3 (interrupt after {:?}, LIST 3, CONT) listed {:?}, expected {:?} first", opi, r.text(), intr_after, listed, expect),
+                            });
+                        }
+                        // leave the store as the model has it
+                        w.line("3", &LineIo::budget(200));
+                        model.remove(&3);
+                    }
                 }
             }
             // after every operation: store equals model, held snapshots unchanged
@@ -403,6 +482,9 @@ impl Case for C15Case {
                 Op::Snap => Json::Str("take and hold a get_listing() snapshot".into()),
                 Op::SnapDrop(i) => Json::Str(format!("drop snapshot {}", i)),
                 Op::SnapCheck(i) => Json::Str(format!("re-read snapshot {}", i)),
+                Op::New => Json::Str("type \"NEW\"".into()),
+                Op::Load(lines) => Json::Str(format!("put {:?} on the SimDisk and LOAD it", lines)),
+                Op::ProgList(r, j) => Json::Str(format!("store `3 LIST{}`, RUN 3, Ctrl-C after List event {:?} then LIST 3 and CONT, delete line 3", r.text(), j)),
             })
             .collect();
         obj()
@@ -423,6 +505,9 @@ fn op_name(op: &Op) -> &'static str {
         Op::Snap => "snapshot",
         Op::SnapDrop(_) => "snapshot-drop",
         Op::SnapCheck(_) => "snapshot-read",
+        Op::New => "NEW",
+        Op::Load(_) => "LOAD",
+        Op::ProgList(..) => "program-LIST",
     }
 }
 
@@ -452,6 +537,24 @@ impl Property for C15 {
                     snaps += 1;
                     Op::Snap
                 }
+                94 if rng.pct(50) => Op::New,
+                95 if rng.pct(40) => {
+                    let k = rng.below(4) as usize;
+                    let mut lines: Vec<(u32, String)> = vec![];
+                    for _ in 0..k {
+                        let n = *rng.pick(UNIVERSE);
+                        if !lines.iter().any(|(m, _)| *m == n) {
+                            lines.push((n, rng.pick::<&str>(TEXTS).to_string()));
+                        }
+                    }
+                    lines.sort();
+                    Op::Load(lines)
+                }
+                96 if rng.pct(60) => {
+                    let r = range(rng, true);
+                    let intr = if rng.pct(60) { Some(rng.below(3) as usize) } else { None };
+                    Op::ProgList(r, intr)
+                }
                 94..=96 if snaps > 0 => Op::SnapDrop(rng.usize(snaps)),
                 97..=99 if snaps > 0 => Op::SnapCheck(rng.usize(snaps)),
                 _ => Op::Put(number(rng), 0, rng.pick::<&str>(TEXTS).to_string()),
@@ -477,7 +580,7 @@ impl Property for C15 {
         }
     }
     fn rule(&self) -> &'static str {
-        "one evaluation = one history of 2-19 operations (numbered lines in 5 spellings, bare numbers, LIST and DELETE in the forms n / n- / -n / a-b / bare / inverted / operand above 65529, TAB completion lookups, snapshots taken, re-read and dropped, Ctrl-C after the j-th listed line) over line numbers drawn with a small-universe bias {0,1,2,9,10,11,100,65528,65529}; the ordered-map model is compared with get_listing() after every operation; distinct = distinct API/event log fingerprint; non-trivial = at least one accepted numbered line and more than 2 operations"
+        "one evaluation = one history of 2-19 operations (numbered lines in 5 spellings, bare numbers, LIST and DELETE in the forms n / n- / -n / a-b / bare / inverted / operand above 65529, TAB completion lookups, NEW, LOAD of a small file from the SimDisk, a LIST statement stored in the program and run with Ctrl-C after the j-th listed line + a direct LIST + CONT, snapshots taken, re-read and dropped, Ctrl-C after the j-th listed line) over line numbers drawn with a small-universe bias {0,1,2,9,10,11,100,65528,65529}; the ordered-map model is compared with get_listing() after every operation; distinct = distinct API/event log fingerprint; non-trivial = at least one accepted numbered line and more than 2 operations"
     }
     fn assumptions(&self) -> Vec<&'static str> {
         vec![
@@ -497,6 +600,10 @@ impl Property for C15 {
             "fault.live_snapshot_during_edit",
             "c15.delete_rejected_form",
             "c15.list_rejected_form",
+            "c15.new",
+            "c15.load",
+            "c15.program_list",
+            "fault.program_list_interrupted",
         ]
     }
 }
